@@ -54,6 +54,25 @@ def main():
     caught = sum(1 for r in rows if ": caught" in r)
     missed = sum(1 for r in rows if "MISSED" in r)
     table += f"\n{n} seeded changes, {caught} (seed, check) pairs caught, {missed} missed (a seed run against a second check that does not cover its mechanism counts as missed there).\n"
+    # behaviour-preserving refactorings (false-alarm measurement)
+    rrows = []
+    for mp in sorted(glob.glob(os.path.join(ROOT, "seeded", "refactors", "*.json"))):
+        m = json.load(open(mp))
+        what = first_line(m.get("notes", ""))[:140].replace("|", "/")
+        quiet = [p for p, c in sorted(m["checks"].items()) if not c["alarm"]]
+        alarms = [p + (" (no failing input)" if c["no_failing_input"] else " (WITH failing input)") for p, c in sorted(m["checks"].items()) if c["alarm"]]
+        rrows.append(f"| {m['name']} | {what} | {'yes' if m.get('suite_passes') else 'NO'} | {', '.join(quiet)} | {', '.join(alarms) or '-'} |")
+    rtable = ("| refactoring | change (first line of the notes) | suite passes | quiet checks | alarms |\n"
+              "|-------------|----------------------------------|--------------|--------------|--------|\n" + "\n".join(rrows) + "\n")
+    if "--inplace" in sys.argv:
+        p = os.path.join(ROOT, "DESIGN.md")
+        s = open(p).read()
+        if "REFACTOR_TABLE_PLACEHOLDER" in s:
+            s = s.replace("REFACTOR_TABLE_PLACEHOLDER", "<!-- REFACTOR-TABLE-BEGIN -->\n" + rtable + "<!-- REFACTOR-TABLE-END -->")
+        else:
+            s = re.sub(r"<!-- REFACTOR-TABLE-BEGIN -->.*?<!-- REFACTOR-TABLE-END -->", lambda _: "<!-- REFACTOR-TABLE-BEGIN -->\n" + rtable + "<!-- REFACTOR-TABLE-END -->", s, flags=re.S)
+        open(p, "w").write(s)
+        s = None
     if "--inplace" in sys.argv:
         p = os.path.join(ROOT, "DESIGN.md")
         s = open(p).read()
